@@ -108,6 +108,10 @@ def _typestr(x):
 
 
 def comparable_itemgetter(*args):
+    if not args:
+        # no key fields (e.g., whole-row key of a table without fields):
+        # all rows have the same, empty key
+        return lambda x: Comparable(())
     getter = operator.itemgetter(*args)
     getter_with_default = _itemgetter_with_default(*args)
 
